@@ -147,7 +147,7 @@ def _work(job):
     x86enum.quiet()
     from miasmx.arch.ia32_arch import x86mnemo
     L = [(p, m) for p, m in x86enum.leaves() if m.modifs.get('mmx') or '#' in m.name][idx::nparts]
-    items, seen = [], set()
+    items, seen, repeat = [], set(), []
     for path, m in L:
         for bs in x86enum.candidates(path, full_sib=(tier == 'thorough'), pads=1, prefixes=[(), (0x66,), (0xF2,), (0xF3,)], m=m, smart=True):
             try: ins = x86mnemo.dis(bs)
@@ -156,9 +156,15 @@ def _work(job):
             seen.add(ins.b)
             try: txt = str(ins)
             except Exception: txt = None
+            try: txt2 = str(ins)
+            except Exception: txt2 = txt
             items.append((bytes(ins.b), ins.l, txt, m.name))
+            if txt2 != txt:
+                repeat.append((m.name, bytes(ins.b).hex(), 'first rendering %r, second rendering %r' % (txt, txt2)))
     ref = objdump_slots([x[0] for x in items])
     groups = {}
+    for (tn, hx, detail) in repeat:
+        g = groups.setdefault(('render-repeat', tn), [0, hx, detail]); g[0] += 1
     n_cmp = n_out = 0
     for (b, l, txt, tn), r in zip(items, ref):
         if r is None or re.match(r'^(rep|repz|repnz|data16|addr16|lock)\b', r[1]):
@@ -182,6 +188,11 @@ def replay(hexbytes, clause):
     except Exception: txt = None
     ref = objdump_slots([b])[0]
     v = compare(b, ins.l, txt, ref)
+    if clause == 'render-repeat':
+        try: txt2 = str(ins)
+        except Exception: txt2 = None
+        print('%s: first rendering %r, second rendering %r' % (hexbytes, txt, txt2))
+        return 1 if txt2 != txt else 0
     print('%s: miasmX %r (length %s); objdump %r' % (hexbytes, txt, ins.l, ref))
     print(v)
     return 1 if v is not None and v[0] == clause else 0
